@@ -129,6 +129,18 @@ def role_answers(m, names):
     return out
 
 
+def _wellformed(im, state):
+    odes, defs, inits, tvar = state
+    # every equation must refer to live variables for the model to be well-formed
+    wellformed = all(im.eq_alive(im.eqid[id(eq)]) for eq in im.model.equations if id(eq) in im.eqid)
+    # well-formed: no variable has both an ODE and an assignment, the free variable has no definition, one free variable
+    if odes and tvar is None:
+        wellformed = False
+    if any(i in defs for i in odes) or (tvar is not None and (tvar in defs or tvar in odes)):
+        wellformed = False
+    return wellformed
+
+
 def run_oracle(case):
     import sympy
     bad = []
@@ -138,7 +150,22 @@ def run_oracle(case):
         return [('harness', repr(e))]
     for jj, op in enumerate(case['ops']):
         before_iv = [(v, v.initial_value) for v in im.model.variables()] if op[0] in ('addeq', 'rmeq') else None
-        im.step(op)
+        r = im.step(op)
+        if op[0] == 'q_value' and len(bad) < 3 and not (r[0] == 'err' and r[1] == 9):
+            # get_value is judged where the history asks for it (not only on the final model): what it answers may depend
+            # on which queries came before it
+            st = final_state(im)
+            if _wellformed(im, st):
+                try:
+                    want = spec_value(case, st, op[1], {})
+                except (NoValue, RecursionError):
+                    want = None
+                if want is not None and r[0] == 'err':
+                    bad.append(('operation %d: get_value(%s) raises %s, the definition evaluates to %s'
+                                % (jj, im.objs[op[1]].name, r[1:], want), {'op_index': jj, 'var': op[1]}))
+                elif want is not None and not math.isclose(r[1], float(want), rel_tol=1e-9, abs_tol=1e-12):
+                    bad.append(('operation %d: get_value(%s) returns %r, the definition evaluates to %s'
+                                % (jj, im.objs[op[1]].name, r[1], want), {'op_index': jj, 'var': op[1]}))
         if before_iv is not None and len(bad) < 3:
             # adding or removing an EQUATION never touches the initial value a variable was given (a state that is clamped by
             # x = number and released again is the same state afterwards)
@@ -151,14 +178,7 @@ def run_oracle(case):
     state = final_state(im)
     odes, defs, inits, tvar = state
     live = [i for i, l in enumerate(im.live) if l]
-    # every equation must refer to live variables for the model to be well-formed
-    wellformed = all(im.eq_alive(im.eqid[id(eq)]) for eq in m.equations if id(eq) in im.eqid)
-    # well-formed: no variable has both an ODE and an assignment, the free variable has no definition, one free variable
-    if odes and tvar is None:
-        wellformed = False
-    if any(i in defs for i in odes) or (tvar is not None and (tvar in defs or tvar in odes)):
-        wellformed = False
-    if not wellformed:
+    if not _wellformed(im, state):
         return bad
     # ---- roles, recomputed from the equations
     want_states = sorted((i for i in odes), key=lambda i: im.objs[i].order_added)
